@@ -84,7 +84,12 @@ def gen_case(seed, idx):
         via = "remote" if hist[-1][0] == "netfault" else rng.choice(["local", "remote"])
         hist.append(["buildB", via])
     hist.append(["buildB_noext", None])
-    return {"idx": idx, "world": w, "split": k, "clash": clash, "history": hist,
+    zsplit = 0
+    if k >= 2 and rng.random() < 0.4:
+        zsplit = rng.randint(1, k - 1)   # a third project Z that A itself lists as external (chain Z -> A -> B)
+    if clash and clash in [m["name"] for m in w["mods"][:zsplit]]:
+        clash = None
+    return {"idx": idx, "world": w, "split": k, "zsplit": zsplit, "clash": clash, "history": hist,
             "b_refs": rng.random() < 0.8, "url_trailing_slash": rng.random() < 0.5}
 
 
@@ -99,9 +104,13 @@ def build_files(case, seed):
     k = case["split"]
     src = {}
     rr = seeds.stream(seed, PROP, case["idx"], "render")
-    a_mods = w["mods"][:k]
+    z = case.get("zsplit", 0)
+    z_mods = w["mods"][:z]
+    a_mods = w["mods"][z:k]
     b_mods = w["mods"][k:]
     fa, fb = {}, {}
+    if z_mods:
+        fa["Z/src/z_all.f90"] = "\n\n".join("\n".join(W.render_module(m, rr)) for m in z_mods) + "\n"
     # A: modules in dependency order, two files
     la = []
     for m in a_mods:
@@ -132,12 +141,11 @@ def b_expectations(case):
     w = case["world"]
     k = case["split"]
     tables, exports = a_exports(case)
-    a_names = {m["name"].lower() for m in w["mods"][:k]}
-    kind_of = {}
-    for m in w["mods"][:k]:
-        for e in m["ents"]:
-            kind_of[(m["name"].lower(), e["name"].lower())] = e["kind"]
+    z = case.get("zsplit", 0)
+    a_names = {m["name"].lower() for m in w["mods"][z:k]}
     exp = []
+    for mname, vname in ref_vars(case):
+        exp.append(("index.html", vname, "module/%s.html" % mname, "variable-" + vname, "[[%s:%s]] reference" % (mname, vname)))
     units = [("module", m) for m in w["mods"][k:]] + [("program", p) for p in w["progs"]] + [("proc", x) for x in w["extprocs"]]
     for kind, u in units:
         page = "%s/%s.html" % (kind, u["name"].lower())
@@ -155,6 +163,22 @@ def b_expectations(case):
                 if o and o[0] in a_names:
                     exp.append(("type/%s.html" % e["name"].lower(), o[1], "type/%s.html" % o[1], None, "type %s extends A's type" % e["name"]))
     return exp
+
+
+def ref_vars(case):
+    """public module variables of A that B's front page references as [[module:variable]] (anchor links)"""
+    w = case["world"]
+    out = []
+    if not case.get("b_refs"):
+        return out
+    for m in w["mods"][case.get("zsplit", 0): case["split"]]:
+        if case.get("clash") and m["name"] == case["clash"]:
+            continue   # B defines a module of that name itself: its own module wins (I4)
+        for e in m["ents"]:
+            if e["kind"] in ("var", "param") and usemodel.effective_access(m, e) in ("public", "protected"):
+                out.append((m["name"].lower(), e["name"].lower()))
+                break
+    return out[:2]
 
 
 def project_file(opts, body):
@@ -309,7 +333,14 @@ def check_i2(case, root, via, bdoc):
         if not os.path.isfile(os.path.join(pub, apage)):
             continue  # A does not document it under its current display options: nothing to link to
         got = found.get(page, [])
-        if not any(t == apage and txt == text for txt, t, f in got):
+        if frag is not None:
+            # an anchor inside a page of A: required only if A's page really has that anchor (A may not display
+            # the entity under its current options; a link to the page itself is then the best there is)
+            ahtml = open(os.path.join(pub, apage), errors="replace").read()
+            if not re.search(r'''(?:id|name)\s*=\s*["']%s["']''' % re.escape(frag), ahtml):
+                frag = None
+                text = None
+        if not any(t == apage and (text is None or txt == text) and (frag is None or f == frag) for txt, t, f in got):
             findings.append(("I2/missing-link/%s" % via, "%s: %s '%s' should be a link to %s of A's documentation; links into A on that page: %s"
                              % (page, why, text, apage, sorted(set(got))[:6])))
     return findings, n_links
@@ -324,7 +355,7 @@ def check_i3(case, root):
     mods = data["modules"] if isinstance(data, dict) else data
     tables, exports = a_exports(case)
     w = case["world"]
-    a_mods = w["mods"][: case["split"]]
+    a_mods = w["mods"][case.get("zsplit", 0): case["split"]]
     want = sorted(m["name"].lower() for m in a_mods)
     got = sorted(m["name"].lower() for m in mods)
     if want != got:
@@ -417,12 +448,20 @@ def evaluate(case, seed, workdir, history=None):
     pending_i5 = []
     bbody = "B project body.\n"
     if case.get("b_refs"):
-        tables, exports = a_exports(case)
         k = case["split"]
-        refs = []
-        for m in case["world"]["mods"][:k]:
-            refs.append(m["name"])
+        refs = [m["name"] for m in case["world"]["mods"][case.get("zsplit", 0):k]]
         bbody += "References: " + " ".join("[[%s]]" % r for r in refs[:3]) + "\n"
+        bbody += "Variables: " + " ".join("[[%s:%s]]" % mv for mv in ref_vars(case)) + "\n"
+    if case.get("zsplit"):
+        zo = {"project": "Z", "src_dir": "./src", "output_dir": "./doc", "preprocess": False, "parallel": 0, "search": False,
+              "graph": False, "externalize": True}
+        r = run_ford(root, "Z", zo, "Z project body.\n", wk, "Z0")
+        out["n"] += 1
+        if r["status"] != "ok" or r["result"]["outcome"]["kind"] != "ok":
+            out["harness"].append("buildZ failed: %s %s" % (r["status"], r["result"] and r["result"]["outcome"]))
+            return out
+        shutil.copytree(os.path.join(root, "Z", "doc"), os.path.join(root, "pubz"))
+        out["probes"]["chain_Z_A_B"] = 1
     bopts_base = {"project": "B", "src_dir": "./src", "output_dir": "./doc", "preprocess": False, "parallel": 0,
                   "search": False, "graph": False, "display": ["public", "private", "protected"]}
     step = 0
@@ -432,8 +471,18 @@ def evaluate(case, seed, workdir, history=None):
             o = {"project": "A", "src_dir": "./src", "output_dir": "./doc", "preprocess": False, "parallel": 0, "search": False,
                  "graph": False}
             o.update(arg)
+            if case.get("zsplit"):
+                o["external"] = "z = ../pubz"
             r = run_ford(root, "A", o, "A project body.\n", wk, "A%d" % step)
             out["n"] += 1
+            if r["status"] == "ok" and r["result"]["outcome"]["kind"] != "ok" and case.get("zsplit"):
+                # A is itself a consumer of the (atomically published, consistent) project Z: invariant I1/I2
+                # for the pair (Z, A)
+                oc = r["result"]["outcome"]
+                out["findings"].append(("I1/local/consistent/%s" % oc.get("cls", oc["kind"]),
+                                        "building A, which lists the consistently published project Z as external, dies (options %s): %s: %s"
+                                        % (json.dumps(arg), oc.get("cls", oc["kind"]), (oc.get("msg") or "")[:300]), step))
+                return out
             if r["status"] != "ok" or r["result"]["outcome"]["kind"] != "ok":
                 out["harness"].append("buildA failed (generator problem or FORD crash on a valid project): %s %s\n%s"
                                       % (r["status"], r["result"] and r["result"]["outcome"], r["stdout"][-800:]))
@@ -545,6 +594,10 @@ def candidates(case):
         c = copy.deepcopy(case)
         c["clash"] = None
         yield "no clash", c
+    if case.get("zsplit"):
+        c = copy.deepcopy(case)
+        c["zsplit"] = 0
+        yield "no Z (A owns Z's modules)", c
     if case.get("b_refs"):
         c = copy.deepcopy(case)
         c["b_refs"] = False
@@ -573,6 +626,11 @@ def candidates(case):
         c = copy.deepcopy(case)
         c["world"] = w
         c["split"] = k
+        if case.get("zsplit"):
+            z_names = [m["name"] for m in case["world"]["mods"][: case["zsplit"]]]
+            c["zsplit"] = len([m for m in w["mods"] if m["name"] in z_names])
+            if c["zsplit"] >= k:
+                continue
         if c.get("clash") and c["clash"] not in [m["name"] for m in w["mods"][:k]]:
             c["clash"] = None
         yield desc, c
